@@ -50,7 +50,24 @@ func ExecAsm(in []string) []string { return execAsm(in, "") }
 // run time); before the client of the case connects, one to three other peers connect and say nothing at all.
 func ExecAsmTLS(in []string) []string { return execAsm(in, "1") }
 
+// The web listener's port is picked by bind-note-release (AsmStart): another process on the machine can take it in
+// between. That is the sandbox, not the server: the child is started again (a fresh process, nothing carried over).
 func execAsm(in []string, tlsMode string) []string {
+	var f []string
+	for try := 0; try < 6; try++ {
+		f = execAsmOnce(in, tlsMode)
+		if len(f) == 2 && f[0] == "SETUPERR" {
+			if vh.PortClash(f) {
+				time.Sleep(time.Duration(50*(try+1)) * time.Millisecond)
+				continue
+			}
+		}
+		break
+	}
+	return f
+}
+
+func execAsmOnce(in []string, tlsMode string) []string {
 	cmd := exec.Command(os.Args[0], "asmchild")
 	cmd.Stdin = strings.NewReader(strings.Join(in, " ") + "\n")
 	var out, errb bytes.Buffer
